@@ -182,7 +182,9 @@ def r3(ctx: Context, prs, sites) -> None:
     ok = bool(ob) and ob[0] == ("creation_timestamp", "ASC") and "creation_time" in mk and not rev
     ctx.add("R3", "active-runners::ordered-by-creation-ascending", ok, a.loc(), "" if ok else f"mem sort key {mk} reverse={rev}; sqlite ORDER BY {ob}")
     # eligibility filter
-    ok = "allow_to_run_atomic_service != can_run_atomic_service" in ast.unparse(a.node) and ss and "? IS NULL OR allow_to_run_atomic_service = ?" in " ".join(ss[0].template.split())
+    p_el = a.params[2] if len(a.params) > 2 else "can_run_atomic_service"
+    mem_filter = any(isinstance(n, ast.If) and any(isinstance(x, ast.Continue) for x in n.body) and any(isinstance(c_, ast.Compare) and isinstance(c_.ops[0], ast.NotEq) and p_el in names_in(c_) for c_ in ast.walk(n.test)) and any(isinstance(c_, ast.Compare) and isinstance(c_.ops[0], ast.IsNot) and p_el in names_in(c_) for c_ in ast.walk(n.test)) for n in walk_no_nested(a.node))
+    ok = mem_filter and ss and "? IS NULL OR allow_to_run_atomic_service = ?" in " ".join(ss[0].template.split())
     ctx.add("R3", "active-runners::eligibility-filter", bool(ok), a.loc(), "" if ok else "the optional can_run_atomic_service filter differs")
     # --- auto purge threshold
     a, s = by[("BaseOrchestrator", "auto_purge")]
